@@ -273,17 +273,18 @@ def c10_3(ctx):
           and "_variant_config['instructions']" in unparse(l.iter.args[0])]
     ctx.check(len(tl) == 1, 'steps:templates-in-order', mv.site(tl[0]) if tl else mv.site(), 'instruction templates are expanded in configuration order',
               f'{len(tl)} template loops')
-    pl = [l for l in walk_no_nested(mv.node) if isinstance(l, ast.For) and isinstance(l.iter, ast.Call) and unparse(l.iter.func) == 'enumerate'
-          and unparse(l.iter.args[0]) == 'instruction_lines']
-    ok = len(pl) == 1
+    from engine.helpers import seq_view
+    sv = seq_view(ctx, mv, 'assembled_instructions')
+    pl = [sv.site] if sv is not None else []
+    ok = sv is not None and isinstance(sv.iter, ast.Call) and unparse(sv.iter.func) == 'enumerate' and unparse(sv.iter.args[0]) == 'instruction_lines' \
+        and not sv.conds and isinstance(sv.target, ast.Tuple) and len(sv.target.elts) == 2
     if ok:
-        pc = [c for c in ast.walk(pl[0]) if isinstance(c, ast.Call) and unparse(c.func) == 'parser_class.parse_instruction']
-        ap = [c for c in ast.walk(pl[0]) if isinstance(c, ast.Call) and unparse(c.func) == 'assembled_instructions.append']
+        pc = sv.elt
         tgt = ctx.repo.func('bespokeasm.assembler.model.instruction_parser_base.InstructioParserBase.parse_instruction')
-        ok = len(pc) == 1 and len(ap) == 1 and deref(ctx, mv, ap[0].args[0], ap[0]) is pc[0]
+        ok = isinstance(pc, ast.Call) and unparse(pc.func) == 'parser_class.parse_instruction'
         if ok:
-            b = bind_args(pc[0], tgt)
-            ok = unparse(b.get('instruction')) == unparse(pl[0].target.elts[1]) and unparse(b.get('isa_model')) == 'isa_model' and unparse(b.get('memzone_manager')) == 'memzone_manager'
+            b = bind_args(pc, tgt)
+            ok = unparse(b.get('instruction')) == unparse(sv.target.elts[1]) and unparse(b.get('isa_model')) == 'isa_model' and unparse(b.get('memzone_manager')) == 'memzone_manager'
     ctx.check(ok, 'steps:assembled-in-order', mv.site(pl[0]) if pl else mv.site(), 'each expanded step is assembled by the instruction parser, in order', '')
     cc = [c for c in ast.walk(mv.node) if isinstance(c, ast.Call) and unparse(c.func) == 'CompositeAssembledInstruction']
     ok = len(cc) == 1 and len(cc[0].args) == 2 and unparse(cc[0].args[1]) == 'assembled_instructions'
